@@ -12,6 +12,7 @@ type Timer struct {
 	f  func()
 }
 
+//go:norace
 func mustSim(op string) *Sim {
 	s := cur()
 	if s == nil {
@@ -20,6 +21,7 @@ func mustSim(op string) *Sim {
 	return s
 }
 
+//go:norace
 func (t *Timer) arm(s *Sim, d time.Duration) {
 	t.ev = s.After(d, "timer", func() {
 		t.ev = nil
@@ -36,6 +38,7 @@ func (t *Timer) arm(s *Sim, d time.Duration) {
 	})
 }
 
+//go:norace
 func NewTimer(d time.Duration) *Timer {
 	s := mustSim("NewTimer")
 	c := make(chan time.Time, 1)
@@ -44,6 +47,7 @@ func NewTimer(d time.Duration) *Timer {
 	return t
 }
 
+//go:norace
 func AfterFunc(d time.Duration, f func()) *Timer {
 	s := mustSim("AfterFunc")
 	t := &Timer{f: f}
@@ -51,8 +55,10 @@ func AfterFunc(d time.Duration, f func()) *Timer {
 	return t
 }
 
+//go:norace
 func After(d time.Duration) <-chan time.Time { return NewTimer(d).C }
 
+//go:norace
 func (t *Timer) Stop() bool {
 	s := mustSim("Timer.Stop")
 	active := t.ev != nil
@@ -69,6 +75,7 @@ func (t *Timer) Stop() bool {
 	return active
 }
 
+//go:norace
 func (t *Timer) Reset(d time.Duration) bool {
 	s := mustSim("Timer.Reset")
 	active := t.Stop()
@@ -84,6 +91,7 @@ type Ticker struct {
 	gen int
 }
 
+//go:norace
 func NewTicker(d time.Duration) *Ticker {
 	if d <= 0 {
 		panic("non-positive interval for NewTicker")
@@ -95,6 +103,7 @@ func NewTicker(d time.Duration) *Ticker {
 	return t
 }
 
+//go:norace
 func (t *Ticker) arm(s *Sim) {
 	t.ev = s.After(t.d, "ticker", func() {
 		s.Stats["ticker_fired"]++
@@ -107,6 +116,7 @@ func (t *Ticker) arm(s *Sim) {
 	})
 }
 
+//go:norace
 func (t *Ticker) Stop() {
 	s := cur()
 	if s == nil {
@@ -118,6 +128,7 @@ func (t *Ticker) Stop() {
 	}
 }
 
+//go:norace
 func (t *Ticker) Reset(d time.Duration) {
 	s := mustSim("Ticker.Reset")
 	t.Stop()
@@ -129,9 +140,12 @@ func (t *Ticker) Reset(d time.Duration) {
 	t.arm(s)
 }
 
+//go:norace
 func Tick(d time.Duration) <-chan time.Time { return NewTicker(d).C }
 
 // Sleep parks the calling task for d of simulated time.
+//
+//go:norace
 func Sleep(d time.Duration) {
 	s := cur()
 	if s == nil || s.inspect || s.killing {
